@@ -225,3 +225,314 @@ pub fn op_fragenc(args: &[&str]) -> String {
     let r = sync::encode_ranges_validated(FragReadAt(data, m), &o, &ranges, &mut out);
     format!("{} {}", r.map(|_| "Ok".to_string()).unwrap_or_else(|e| enc_err(&e)), dig(&out))
 }
+
+// ---------------- fault enumeration (C10) ----------------
+use bao_tree::io::mixed;
+use std::io::ErrorKind;
+
+pub struct RunOut {
+    pub res: String,
+    pub out: Vec<u8>,
+    pub ctls: Vec<(&'static str, Ctrl)>,
+}
+
+fn fault_for(obj: &str, fault: &Option<(String, usize, ErrorKind)>) -> Option<(usize, ErrorKind)> {
+    match fault {
+        Some((o, k, kind)) if o == obj => Some((*k, *kind)),
+        _ => None,
+    }
+}
+
+struct CountingSender<'a> {
+    items: &'a mut Vec<u8>,
+    ctl: Ctrl,
+}
+impl mixed::Sender for CountingSender<'_> {
+    type Error = ();
+    fn send(&mut self, item: mixed::EncodedItem) -> impl std::future::Future<Output = Result<(), ()>> + '_ {
+        let what = match &item {
+            mixed::EncodedItem::Size(_) => "send Size".to_string(),
+            mixed::EncodedItem::Parent(p) => format!("send P{}", node_id(p.node)),
+            mixed::EncodedItem::Leaf(l) => format!("send L{}", l.offset / 1024),
+            mixed::EncodedItem::Error(e) => format!("send Error({})", enc_err(e)),
+            mixed::EncodedItem::Done => "send Done".to_string(),
+        };
+        let r = tick(&self.ctl, what);
+        if r.is_ok() {
+            match &item {
+                mixed::EncodedItem::Parent(p) => {
+                    self.items.extend_from_slice(p.pair.0.as_bytes());
+                    self.items.extend_from_slice(p.pair.1.as_bytes());
+                }
+                mixed::EncodedItem::Leaf(l) => self.items.extend_from_slice(&l.data),
+                _ => {}
+            }
+        }
+        std::future::ready(r.map_err(|_| ()))
+    }
+}
+
+/// run one operation with an optional fault; opspec = `name/blob/bs/store/ranges`
+pub fn run_faulty(spec: &str, fault: Option<(String, usize, ErrorKind)>) -> RunOut {
+    let p: Vec<&str> = spec.split('/').collect();
+    let name = p[0];
+    let data = blob(p[1]);
+    let bs = bs_of(p[2]);
+    let kind = p[3];
+    let ranges = ranges_arg(p[4]);
+    let (root, tree, ob) = intact_store(kind, &data, bs);
+    let c = |o: &'static str| (o, ctl(fault_for(o, &fault)));
+    let zero = blake3::Hash::from([0u8; 32]);
+    match name {
+        "encv-sync" | "encp-sync" => {
+            let (cd, co, cw) = (c("data"), c("ob"), c("w"));
+            let mut out = Vec::new();
+            let (r, _) = with_sync_store!(kind, root, tree, ob, |o| {
+                let d = FReadAt(&data[..], cd.1.clone());
+                let fo = FOb(&o, co.1.clone());
+                let w = FWrite(&mut out, cw.1.clone());
+                if name == "encv-sync" {
+                    sync::encode_ranges_validated(d, fo, &ranges, w)
+                } else {
+                    sync::encode_ranges(d, fo, &ranges, w)
+                }
+            });
+            RunOut { res: r.map(|_| "Ok".into()).unwrap_or_else(|e| enc_err(&e)), out, ctls: vec![cd, co, cw] }
+        }
+        "encv-fsm" | "encp-fsm" => {
+            let (cd, co, cw) = (c("data"), c("ob"), c("w"));
+            let mut out = Vec::new();
+            let d = Bytes::from(data.clone());
+            let (r, _) = with_fsm_store!(kind, root, tree, ob, |o| {
+                let d = FSliceReader(d.clone(), cd.1.clone());
+                let fo = FOb(&mut o, co.1.clone());
+                let w = FStreamWriter(&mut out, cw.1.clone());
+                if name == "encv-fsm" {
+                    block_on(fsm::encode_ranges_validated(d, fo, &ranges, w))
+                } else {
+                    block_on(fsm::encode_ranges(d, fo, &ranges, w))
+                }
+            });
+            RunOut { res: r.map(|_| "Ok".into()).unwrap_or_else(|e| enc_err(&e)), out, ctls: vec![cd, co, cw] }
+        }
+        "mixed" => {
+            let (cd, co, cs) = (c("data"), c("ob"), c("s"));
+            let mut out = Vec::new();
+            struct RB<'a>(&'a [u8], Ctrl);
+            impl mixed::ReadBytesAt for RB<'_> {
+                fn read_bytes_at(&self, offset: u64, size: usize) -> std::io::Result<Bytes> {
+                    tick(&self.1, format!("read_at {} {}", offset, size))?;
+                    self.0.read_bytes_at(offset, size)
+                }
+            }
+            let (r, _) = with_sync_store!(kind, root, tree, ob, |o| {
+                let mut snd = CountingSender { items: &mut out, ctl: cs.1.clone() };
+                block_on(mixed::traverse_ranges_validated(RB(&data[..], cd.1.clone()), FOb(&o, co.1.clone()), &ranges, &mut snd))
+            });
+            // the terminal is the last thing sent
+            let last = cs.1.borrow().log.last().cloned().unwrap_or_default();
+            let res = match r {
+                Err(()) => "SendErr".to_string(),
+                Ok(()) => {
+                    if last == "send Done" {
+                        "Ok".into()
+                    } else if last.starts_with("send Error(") {
+                        last["send Error(".len()..last.len() - 1].to_string()
+                    } else {
+                        format!("bad-terminal:{last}")
+                    }
+                }
+            };
+            // the terminal item is not part of the emitted prefix
+            if cs.1.borrow().log.last().map(|l| l.starts_with("send Error(")).unwrap_or(false) {
+                cs.1.borrow_mut().log.pop();
+            }
+            RunOut { res, out, ctls: vec![cd, co, cs] }
+        }
+        "decr-sync" | "decr-fsm" => {
+            let (cr, ct, co) = (c("r"), c("t"), c("ob"));
+            let mut enc = Vec::new();
+            {
+                let pre = PreOrderMemOutboard::create(&data, bs);
+                sync::encode_ranges_validated(&data[..], &pre, &ranges, &mut enc).unwrap();
+            }
+            let ob0 = vec![0u8; tree.outboard_size() as usize];
+            let mut target = vec![0u8; data.len()];
+            let (r, ob_out) = if name == "decr-sync" {
+                with_sync_store!(kind, root, tree, ob0, |o| sync::decode_ranges(
+                    FRead(&enc[..], cr.1.clone()),
+                    &ranges,
+                    FWriteAt(&mut target, ct.1.clone()),
+                    FOb(&mut o, co.1.clone())
+                ))
+            } else {
+                let mut t = BytesMut::from(&target[..]);
+                let res = with_fsm_store!(kind, root, tree, ob0, |o| block_on(fsm::decode_ranges(
+                    FStreamReader(&enc[..], cr.1.clone()),
+                    ranges.clone(),
+                    FSliceWriter(&mut t, ct.1.clone()),
+                    FOb(&mut o, co.1.clone())
+                )));
+                target = t.to_vec();
+                res
+            };
+            let mut out = target;
+            out.extend_from_slice(&ob_out);
+            RunOut { res: r.map(|_| "Ok".into()).unwrap_or_else(|e| dec_err(&e)), out: vec![], ctls: vec![cr, ct, co] }.with_out(out)
+        }
+        "ob-sync" | "ob-fsm" => {
+            let (cd, co) = (c("data"), c("ob"));
+            let ob0 = vec![0u8; tree.outboard_size() as usize];
+            let (r, ob_out) = if name == "ob-sync" {
+                with_sync_store!(kind, zero, tree, ob0, |o| sync::outboard(FRead(&data[..], cd.1.clone()), tree, FOb(&mut o, co.1.clone())))
+            } else {
+                with_fsm_store!(kind, zero, tree, ob0, |o| block_on(fsm::outboard(
+                    FStreamReader(Bytes::from(data.clone()), cd.1.clone()),
+                    tree,
+                    FOb(&mut o, co.1.clone())
+                )))
+            };
+            RunOut { res: r.map(|_| "Ok".into()).unwrap_or_else(|e| io_err(&e)), out: vec![], ctls: vec![cd, co] }.with_out(ob_out)
+        }
+        "obpo-sync" | "obpo-fsm" => {
+            let (cd, cw) = (c("data"), c("w"));
+            let mut out = Vec::new();
+            let r = if name == "obpo-sync" {
+                sync::outboard_post_order(FRead(&data[..], cd.1.clone()), tree, FWrite(&mut out, cw.1.clone()))
+            } else {
+                block_on(fsm::outboard_post_order(
+                    FStreamReader(Bytes::from(data.clone()), cd.1.clone()),
+                    tree,
+                    FStreamWriter(&mut out, cw.1.clone()),
+                ))
+            };
+            RunOut { res: r.map(|_| "Ok".into()).unwrap_or_else(|e| io_err(&e)), out, ctls: vec![cd, cw] }
+        }
+        "copy-sync" | "copy-fsm" => {
+            let (cf, ct) = (c("from"), c("to"));
+            // copy into the other order
+            let to_kind = if kind.starts_with("pre") { "postMem" } else { "preMem" };
+            let ob0 = vec![0u8; tree.outboard_size() as usize];
+            let (r, to_out) = if name == "copy-sync" {
+                let (rr, _) = with_sync_store!(kind, root, tree, ob, |from| {
+                    with_sync_store!(to_kind, root, tree, ob0.clone(), |to| sync::copy(FOb(&from, cf.1.clone()), FOb(&mut to, ct.1.clone())))
+                });
+                rr
+            } else {
+                let (rr, _) = with_fsm_store!(kind, root, tree, ob, |from| {
+                    with_fsm_store!(to_kind, root, tree, ob0.clone(), |to| block_on(fsm::copy(
+                        FOb(&mut from, cf.1.clone()),
+                        FOb(&mut to, ct.1.clone())
+                    )))
+                });
+                rr
+            };
+            RunOut { res: r.map(|_| "Ok".into()).unwrap_or_else(|e| io_err(&e)), out: vec![], ctls: vec![cf, ct] }.with_out(to_out)
+        }
+        "valid-sync" | "validob-sync" | "valid-fsm" | "validob-fsm" => {
+            let (co, cd) = (c("ob"), c("data"));
+            let mut res: Vec<String> = Vec::new();
+            let with_data = name.starts_with("valid-");
+            if name.ends_with("-sync") {
+                let _ = with_sync_store!(kind, root, tree, ob, |o| {
+                    if with_data {
+                        for r in sync::valid_ranges(FOb(&o, co.1.clone()), FReadAt(&data[..], cd.1.clone()), &ranges) {
+                            res.push(r.map(|r| format!("{}:{}", r.start.0, r.end.0)).unwrap_or_else(|e| io_err(&e)));
+                        }
+                    } else {
+                        for r in sync::valid_outboard_ranges(FOb(&o, co.1.clone()), &ranges) {
+                            res.push(r.map(|r| format!("{}:{}", r.start.0, r.end.0)).unwrap_or_else(|e| io_err(&e)));
+                        }
+                    }
+                });
+            } else {
+                use futures_lite::StreamExt;
+                let d = Bytes::from(data.clone());
+                let _ = with_fsm_store!(kind, root, tree, ob, |o| {
+                    block_on(async {
+                        if with_data {
+                            let mut s = std::pin::pin!(fsm::valid_ranges(FOb(&mut o, co.1.clone()), FSliceReader(d.clone(), cd.1.clone()), &ranges));
+                            while let Some(r) = s.next().await {
+                                res.push(r.map(|r| format!("{}:{}", r.start.0, r.end.0)).unwrap_or_else(|e| io_err(&e)));
+                            }
+                        } else {
+                            let mut s = std::pin::pin!(fsm::valid_outboard_ranges(FOb(&mut o, co.1.clone()), &ranges));
+                            while let Some(r) = s.next().await {
+                                res.push(r.map(|r| format!("{}:{}", r.start.0, r.end.0)).unwrap_or_else(|e| io_err(&e)));
+                            }
+                        }
+                    })
+                });
+            }
+            // result: the error if there is one (must be the last item), else Ok; `out` = the ranges yielded
+            let errs: Vec<usize> = res.iter().enumerate().filter(|(_, s)| s.starts_with("Io(")).map(|(i, _)| i).collect();
+            let r = if errs.is_empty() {
+                "Ok".to_string()
+            } else if errs == vec![res.len() - 1] {
+                res.last().unwrap().clone()
+            } else {
+                format!("error-not-last:{}", res.join(","))
+            };
+            let yielded: Vec<String> = res.iter().filter(|s| !s.starts_with("Io(")).cloned().collect();
+            RunOut { res: r, out: yielded.join(",").into_bytes(), ctls: vec![co, cd] }
+        }
+        _ => panic!("bad op {name}"),
+    }
+}
+impl RunOut {
+    fn with_out(mut self, out: Vec<u8>) -> Self {
+        self.out = out;
+        self
+    }
+}
+
+/// `faults <opspec> <stride>`: fault-free run, then a fault at every `stride`-th call index of every object, 4 kinds
+pub fn op_faults(args: &[&str]) -> String {
+    let spec = args[0];
+    let stride: usize = args[1].parse().unwrap();
+    let free = run_faulty(spec, None);
+    let name = spec.split('/').next().unwrap();
+    let store_like = name.starts_with("decr") || name.starts_with("ob-") || name.starts_with("copy");
+    let mut parts: Vec<String> = Vec::new();
+    let counts: Vec<String> = free.ctls.iter().map(|(o, c)| format!("{}:{}", o, c.borrow().calls)).collect();
+    parts.push(format!("{} N={}", free.res, counts.join(",")));
+    for (obj, c0) in &free.ctls {
+        let n = c0.borrow().calls;
+        let free_log = c0.borrow().log.clone();
+        let mut k = 0;
+        while k < n {
+            let mut toks = Vec::new();
+            for kind in ["Other", "UnexpectedEof", "ConnectionReset", "WriteZero"] {
+                let spec_s = spec.to_string();
+                let obj_s = obj.to_string();
+                let kk = kind_of(kind);
+                let r = std::panic::catch_unwind(move || run_faulty(&spec_s, Some((obj_s, k, kk))));
+                match r {
+                    Err(_) => toks.push(format!("{kind}=panic/a0/p0")),
+                    Ok(run) => {
+                        let (_, cf) = run.ctls.iter().find(|(o, _)| o == obj).unwrap();
+                        let after = cf.borrow().after_fail;
+                        // (c): everything observable is a prefix of the fault-free run
+                        let mut prefix = true;
+                        for ((_, a), (_, b)) in run.ctls.iter().zip(free.ctls.iter()) {
+                            let la = a.borrow().log.clone();
+                            let lb = b.borrow().log.clone();
+                            if la.len() > lb.len() || la[..] != lb[..la.len()] {
+                                prefix = false;
+                            }
+                        }
+                        if !store_like && !(run.out.len() <= free.out.len() && run.out[..] == free.out[..run.out.len()]) {
+                            prefix = false;
+                        }
+                        let _ = &free_log;
+                        toks.push(format!("{kind}={}/a{}/p{}", run.res, after, b01(prefix)));
+                    }
+                }
+            }
+            // what the failing call was (label of the k-th call on this object in the fault-free run)
+            parts.push(format!("{}@{}[{}] {}", obj, k, free_log[k].replace(' ', "_"), toks.join(" ")));
+            k += stride.max(1);
+        }
+    }
+    parts.join(" # ")
+}
